@@ -6,7 +6,9 @@ import lib, render, abisig, observe
 # reserved words of C, C++ and JS that are ordinary identifiers in Rust (Rust's own reserved words would need raw identifiers,
 # which the proc macro does not support: they are outside the grammar)
 KEYWORDS = ["default", "new", "class", "int", "register", "this", "delete", "namespace", "template", "char", "signed",
-            "union", "volatile", "export", "function", "var", "friend", "operator", "private", "double", "short", "auto", "goto"]
+            "union", "volatile", "export", "function", "var", "friend", "operator", "private", "double", "short", "auto", "goto",
+            # the usual Rust spelling of keyword-like names: reserved only AFTER a backend's case conversion drops the underscore
+            "in_", "for_", "new_", "if_", "static_", "enum_", "let_", "await_", "yield_", "while_", "typeof_", "instanceof_", "with_"]
 RUST_KW = set()
 
 
